@@ -126,4 +126,23 @@ def ffInterp (st : Option Status) : List FFStmt → Option Bool
 
 def refFailFast : List FFStmt := [.ifStatusInThenOnError [.uxsuccess, .fail]]
 
+/-! ### `StreamTagger.__init__`: the configuration is a value -/
+inductive TIStmt where
+  | superInit          -- super().__init__(targets)
+  | snapshotAdd        -- self.add = frozenset(add or ())        (a copy: the caller's object is not kept)
+  | snapshotDiscard    -- self.discard = frozenset(discard or ())
+  | other
+deriving DecidableEq, Repr
+
+/-- the tagger node made from the constructor arguments, read as the values they have at that moment -/
+def tiInterp (add discard : List Nat) (ts : List Dec) : List TIStmt → Option (List Nat) → Option (List Nat) → Bool → Option Dec
+  | [], some a, some d, true => some (.tagger a d ts)
+  | [], _, _, _ => Option.none
+  | .superInit :: r, a, d, _ => tiInterp add discard ts r a d true
+  | .snapshotAdd :: r, _, d, s => tiInterp add discard ts r (some add) d s
+  | .snapshotDiscard :: r, a, _, s => tiInterp add discard ts r a (some discard) s
+  | .other :: _, _, _, _ => Option.none
+
+def refTaggerInit : List TIStmt := [.superInit, .snapshotAdd, .snapshotDiscard]
+
 end TTV.DecoSrc
